@@ -408,6 +408,44 @@ func ruleC08RefcountProtocol(c *Ctx) {
 					ok = true
 				}
 			}
+			if !ok {
+				// the release may live in a helper: then every call site must replace the entry under the same id afterwards
+				for _, o := range origins {
+					if !isKeysCall(o, "Get") {
+						continue
+					}
+					idArg := strip(callOf(o).Args[0])
+					pidx := -1
+					for k, p := range f.Params {
+						if ssa.Value(p) == idArg {
+							pidx = k
+						}
+					}
+					if pidx < 0 {
+						continue
+					}
+					buildCallSiteIndex(f)
+					sites := callSiteIndex[f]
+					all := len(sites) > 0 && !addressTaken[f]
+					for _, site := range sites {
+						args := callArgs(site.Common())
+						if pidx >= len(args) {
+							all = false
+							continue
+						}
+						idPath := accessPath(args[pidx])
+						okp, _ := mustPass(site.Block(), indexOf(site)+1, func(j ssa.Instruction) bool {
+							return isKeysCall(j, "Set") && accessPath(callOf(j).Args[0]) == idPath
+						}, nil)
+						if !okp {
+							all = false
+						}
+					}
+					if all {
+						ok = true
+					}
+				}
+			}
 			c.check(ok, construct, u.ipos(i), "released only where the entry is replaced under the same id right after",
 				"the cache drops its own reference to a key that stays retrievable from the cache: the secret is destroyed while still cached (later users get 'secret has already been destroyed')")
 		})
@@ -515,6 +553,20 @@ func uncountedSource(v ssa.Value, at *ssa.BasicBlock, seen map[ssa.Value]bool) s
 		if f := staticCallee(x); f != nil && f.Pkg != nil && f.Pkg.Pkg.Path() == pkgApp && (f.Name() == "tracked" || f.Name() == "newCachedCryptoKey") {
 			return nil
 		}
+		if f := staticCallee(x); f != nil && f.Blocks != nil && f.Pkg != nil && f.Pkg.Pkg.Path() == pkgApp {
+			return uncountedFromHelper(f, 0, seen)
+		}
+		return v
+	case *ssa.Extract:
+		if call, ok := x.Tuple.(*ssa.Call); ok {
+			if f := staticCallee(call); f != nil && f.Blocks != nil && f.Pkg != nil && f.Pkg.Pkg.Path() == pkgApp {
+				switch f.Name() {
+				case "getFresh", "read", "load":
+					return v // a cache lookup result: the cache's own reference, not counted
+				}
+				return uncountedFromHelper(f, x.Index, seen)
+			}
+		}
 		return v
 	case *ssa.Phi:
 		for k, e := range x.Edges {
@@ -561,4 +613,17 @@ func phiEdgeFeasible(phi *ssa.Phi, k int, at *ssa.BasicBlock) bool {
 		}
 	}
 	return true
+}
+
+// uncountedFromHelper: result #k of helper h can be a key that did not pass tracked()/newCachedCryptoKey().
+func uncountedFromHelper(h *ssa.Function, k int, seen map[ssa.Value]bool) ssa.Value {
+	for _, r := range returnsOf(h) {
+		if k >= len(r.Results) {
+			continue
+		}
+		if b := uncountedSource(returnedValue(r, k), r.Block(), seen); b != nil {
+			return b
+		}
+	}
+	return nil
 }
